@@ -58,6 +58,9 @@ CLAIMS["C15"] = ("explicit-state enumeration of event histories on the real obje
 CLAIMS["C16"] = ("explicit enumeration of arities x completion orders x failing positions on the real code (environment choices free), plus delay-bounded schedule enumeration for concurrent completions",
     "0-3 positional (4 thorough) x keyword sets including names that collide with the implementation's own identifiers (x, fn, key, args, kwargs): every completion permutation of the function future and argument futures, pre-resolved inputs, a failing input at each position and a raising fn are executed; oracle: exactly one call, only after all inputs resolved, positional order, keyword mapping, output = return value / the failing input's or fn's exception. Concurrent resolution by one thread per input to d<=1 (2 thorough) at line granularity.",
     "DESIGN.md section 6 C16")
+CLAIMS["C17"] = ("exhaustive differential enumeration operator x value x operand on the real code, plus schedule enumeration for pending futures under a virtual clock",
+    "Every forwarded operation (19 binary incl. 3-argument pow, 2-argument round, item set/del; 21 unary/attribute/method incl. unknown attributes and dunders) x 16 values of all builtin kinds and a user class x 15 operands x {resolved, failed, failed with AttributeError} is evaluated on the proxy and on the plain value (same value and type, or same exception type): ~9 700 evaluations. Under the scheduler: nine non-forwarded operations must return at t=0 with the future still pending, eight forwarded ones must raise TimeoutError at exactly the configured virtual time and return the right value when another thread resolves the future later; f_nocancel over probe / cooperative / done / retrying futures: cancel() False in every schedule (d<=2), input never cancelled, outcome mirrored.",
+    "DESIGN.md section 6 C17")
 NOT_YET = {}
 
 props = [json.loads(l) for l in open(os.path.join(HERE, "properties.jsonl"))]
